@@ -54,6 +54,35 @@ fn main() {
             println!("{}", path.display());
             0
         }
+        "fuzz-seeds" => {
+            // write the regression cases of a property as libFuzzer seed inputs ([2-byte shape selector][tape])
+            let id = arg(&args, "--prop").expect("--prop");
+            let prop = find(&id);
+            let out = PathBuf::from(arg(&args, "--out").expect("--out"));
+            let reg = run::Registry::load();
+            let shapes: Vec<usize> = (0..reg.shapes.len()).filter(|i| prop.applicable_shape(reg.shapes[*i].as_ref())).collect();
+            let mut n = 0;
+            if let Ok(rd) = std::fs::read_dir("/verif/replays/regress") {
+                for e in rd.flatten() {
+                    let name = e.file_name().to_string_lossy().to_string();
+                    if !name.starts_with(&format!("{}-", id)) {
+                        continue;
+                    }
+                    let Ok(txt) = std::fs::read_to_string(e.path()) else { continue };
+                    let Ok(j) = serde_json::from_str::<serde_json::Value>(&txt) else { continue };
+                    let Some(shape) = j["shape"].as_str().and_then(|s| reg.by_name(s)) else { continue };
+                    let Some(pos) = shapes.iter().position(|s| *s == shape) else { continue };
+                    // smallest selector that maps to `pos` under (sel * len) >> 16
+                    let sel = ((pos << 16) + shapes.len() - 1) / shapes.len();
+                    let mut data = (sel as u16).to_le_bytes().to_vec();
+                    data.extend(run::unhex(j["tape"].as_str().unwrap_or("")));
+                    std::fs::write(out.join(format!("regress-{}", n)), data).ok();
+                    n += 1;
+                }
+            }
+            println!("{} seeds", n);
+            0
+        }
         "shapes" => {
             let reg = run::Registry::load();
             for s in &reg.shapes {
